@@ -189,7 +189,7 @@ var propDeps = map[string][]string{
 	"C15": {"C05"},
 	"C16": {"C12"},
 	"C17": {"C20", "C01", "C02"},
-	"C18": {"C11"}, // the tool reads FILE and standard input through the file pipeline
+	"C18": {"C11", "C09"}, // the tool reads FILE and standard input through the file pipeline; --bdump/--bload reproduce a direct run only if the round trip holds
 	"C19": {"C08"},
 	"C20": {"C07", "C17"},
 }
